@@ -24,9 +24,12 @@ def run(tier):
                             "reached all-finished, distinct by (algorithm, instance, policy, schedule class). "
                             "MODEL: Mgm.tla checked by TLC over every start order, FIFO delivery order and random draw (invariants "
                             "FinishedAtStop, QuietMeansFinished, absence of deadlock before the end, structural ones) for stop_cycle 1-3, "
-                            "every explored transition replayed on the real MgmComputation objects")
+                            "every explored transition replayed on the real MgmComputation objects; the same with Dsa.tla (variants A, B, C) "
+                            "on the real DsaComputation objects")
     from ..mgmmodel import model_part
     for k in ([2] if quick else [1, 2, 4]):
         model_part(v, tier, ["FinishedAtStop", "QuietMeansFinished"], CLAUSES, ["quiet_fin", "stop"], seed_off=7 + k, stop=k,
                    shapes=["pair", "unarypair", "isolated", "isounary", "path3", "fork3", "triangle"] + ([] if quick else ["tern", "twocomp", "path3d3"]))
+    from ..dsamodel import model_part as dsa_model_part
+    dsa_model_part(v, tier, ["FinishedAtStop", "QuietMeansFinished"], CLAUSES, ["quiet_fin", "stop"], seed_off=7)
     return v.finish()
